@@ -107,6 +107,8 @@ def signal_enumeration(world, op, work, budget, r, evaluate, sigs=("INT", "TERM"
     records = []
     for k in ks:
         sig = sigs[k % len(sigs)] if len(sigs) > 1 else sigs[0]
+        if "INT" in op.get("sig_ign", []):
+            sig = "INT"     # the interesting one when SIGINT was inherited as ignored
         sw = SubWorld(world, work, "s%d" % k)
         try:
             inv = sw.world.run_cond(sw.op(dict(op, signal={"sig": sig, "cp": k})))
